@@ -356,6 +356,9 @@ pub fn probes(scn: &Scenario, _rf: &Ref, ex: &Exec) -> Vec<&'static str> {
     if ex.fired.iter().any(|x| *x) {
         p.push("fault_fired");
     }
+    if c10_inconclusive(scn, _rf, ex) {
+        p.push("budget_inconclusive_slow_fair_schedule");
+    }
     let _ = scn;
     p.sort();
     p.dedup();
@@ -489,13 +492,36 @@ fn is_entry(scn: &Scenario, e: &Event) -> bool {
     }
 }
 
+/// On an unbounded source the number of steps a correct run takes depends on the schedule (the others keep
+/// pulling while the holder of the match waits for its turn). A budget overrun is a termination failure only
+/// if every live thread has had the own steps that suffice to reach the match alone.
+pub fn c10_inconclusive(scn: &Scenario, rf: &Ref, ex: &Exec) -> bool {
+    if scn.src != Src::IterEndless {
+        return false;
+    }
+    match &ex.rec.abort {
+        Some(a) if a.starts_with("budget") => {}
+        _ => return false,
+    }
+    let w = crate::exec::own_steps_bound(rf);
+    ex.rec
+        .slots
+        .iter()
+        .enumerate()
+        .any(|(i, s)| i != 0 && s.status == crate::sched::Status::Runnable && s.steps < w)
+}
+
 fn c10(scn: &Scenario, rf: &Ref, ex: &Exec, out: &mut Vec<Finding>) {
     let log = &ex.rec.log;
     let eager = scn.eager_sites();
     // (a) termination
     if let Some(a) = &ex.rec.abort {
         if a.starts_with("budget") || a.starts_with("deadlock") || a.starts_with("stall") {
-            out.push(f("no-termination", format!("the short-circuit terminal did not return within {} steps although a match exists at source position {:?}: {}", ex.budget, rf.match_src_pos, a)));
+            if c10_inconclusive(scn, rf, ex) {
+                // fair but slow schedule: some thread has not yet had the steps it needs; no verdict
+                return;
+            }
+            out.push(f("no-termination", format!("the short-circuit terminal did not return within {} steps although a match exists at source position {:?} and every live thread has run at least {} steps of its own: {}", ex.budget, rf.match_src_pos, crate::exec::own_steps_bound(rf), a)));
         }
         return;
     }
